@@ -137,9 +137,15 @@ for name in ["awkward_reduce_argmax_bool_64", "awkward_reduce_argmin_bool_64"]:
       ensures_ok=["forall(p, 0, outlength, toptr[p] == -1 or (0 <= toptr[p] < lenparents and parents[toptr[p]] == p))"],
       serves=["C03", "C12", "C13"])
 for name in ["awkward_reduce_argmax_complex", "awkward_reduce_argmin_complex"]:
+    _cmp = ">" if "argmax" in name else "<"
     K(name,
       extents={"toptr": "outlength", "fromptr": "lenparents * 2", "parents": "lenparents"},
       requires=[PARENTS],
       loops={"L0": ["0 <= k", ARG_INV0], "L1": ["0 <= i", ARG_INV1]},
+      # C03 (position of the FIRST extremal element): the recorded position is replaced only by an element that is
+      # strictly beyond it in the lexicographic (real, imaginary) order -- never on a tie
+      store_asserts={"toptr@L1": ["value == i", "at == parents[i]",
+                                  "toptr[at] == -1 or fromptr[i * 2] %s fromptr[toptr[at] * 2] or "
+                                  "(feq(fromptr[i * 2], fromptr[toptr[at] * 2]) and fromptr[i * 2 + 1] %s fromptr[toptr[at] * 2 + 1])" % (_cmp, _cmp)]},
       ensures_ok=["forall(p, 0, outlength, toptr[p] == -1 or (0 <= toptr[p] < lenparents and parents[toptr[p]] == p))"],
       serves=["C03", "C12", "C13"])
